@@ -293,6 +293,15 @@ ConfigsC16T ==
     { [Base EXCEPT !.maxAtt = ma, !.rc = TRUE, !.handler = ha, !.bsleep = bs, !.abort = ab, !.D = d] :
         ma \in {4, 5}, ha \in BOOLEAN, bs \in BOOLEAN, ab \in BOOLEAN, d \in {5, Inf} }
 
+\* ---- attempt timeouts that fire ("hang"): every stop reason reached through attempts the runner
+\* ended itself, mixed with ordinary failures; deadlines below, at and above a multiple of the timeout
+OutsHang == {OkOut, Out("hang", U, None), Out("exc", T, None), Out("res", R, None)}
+ConfigsHang ==
+    { [Base EXCEPT !.maxAtt = ma, !.rc = TRUE, !.maxUnk = mu, !.D = d,
+                   !.budget = bu, !.handler = ha, !.abort = ab, !.hooks = hk] :
+        ma \in {2, 3}, mu \in {None, 1, 2}, d \in {3, 4, Inf}, bu \in {None, 1},
+        ha \in BOOLEAN, ab \in BOOLEAN, hk \in BOOLEAN }
+
 \* ---- the full product, explored by random simulation -------------------------------------
 OutsFull == {OkOut} \cup FailOuts({"exc", "res"}, {T, R, U, P}, {None, 2})
             \cup {Out("abort", "-", None), Out("kbd", "-", None), Out("cancel", "-", None),
